@@ -120,13 +120,14 @@ def run(ctx):
         ctx.violation(key, "%s returns (%s) in a fresh process but (%s) after [%s]" % (
             show(probe), showres(fresh[probe]["res"]), showres(e["res"]), "; ".join(show(c) for c in culprit)),
             {"history": [show(c) for c in (culprit + [probe])], "history_ids": culprit + [probe], "fresh": fresh[probe]["res"], "after": e["res"]})
+    deep = max(tree, key=lambda r: (len(r["h"]), tuple(r["h"]) in badhist))     # a longest history (a rejected one if there is any)
     nontrivial = sum(1 for r in tree if len(r["h"]) >= 2) + sum(1 for r in loads if r["perm"] != sorted(r["perm"]))
     ctx.coverage = {
         "evaluations": len(events) + len(fresh), "distinct_nontrivial": nontrivial,
         "rule": "one event per history (distinct by construction: PurityDomain asserts the set of replayed histories equals "
                 "Purity!Histories) and per load permutation; non-trivial = history with at least one earlier operation, or a "
                 "non-identity permutation",
-        "samples": [{"history": [show(c) for c in tree[len(tree) // 2]["h"]], "result": tree[len(tree) // 2]["res"]},
+        "samples": [{"history": [show(c) for c in deep["h"]], "result_of_last_op": deep["res"]},
                     {"load_set": loads[1]["set"], "perm": loads[1]["perm"], "probes": loads[1]["res"]["probes"]}],
         "ops": nops, "histories": nhist, "max_history_length": max(len(r["h"]) for r in tree), "load_permutations": nloads,
         "fresh_process_runs": len(fresh), "events_rejected": len(bad),
